@@ -10,6 +10,7 @@
    The model returns None where the code asserts (the component has no
    successor for an allowed next environment value).
 
+   Termination: C12_fuel_never_exhausted.
    That every path of the graph then satisfies the liveness condition is
    inherited from the implementation (C02/C05) and not re-proved here. *)
 From Coq Require Import List Bool Arith Lia.
@@ -31,6 +32,16 @@ Theorem C12_enumeration_sound : forall fuel l q g,
   run nx ny E S pick fuel (mkG l q []) = Some g ->
   check_graph nx ny E S g = true /\ (exists extra, nodes g = l ++ extra).
 Proof. exact (enum_sound nx ny E S pick pick_sound). Qed.
+
+(* termination: with fuel >= number of valuations, fuel is never what stops
+   the enumeration (more fuel gives the same result); a None result is the
+   model of the code's own assertion "the component has no successor" *)
+Theorem C12_fuel_never_exhausted : forall l q fuel k,
+  NoDup l -> (forall s, In s l -> in_range nx ny s) ->
+  NoDup q -> (forall u, In u q <-> u < length l) ->
+  nx * ny <= fuel ->
+  run nx ny E S pick (fuel + k) (mkG l q []) = run nx ny E S pick fuel (mkG l q []).
+Proof. exact (run_enough_fuel nx ny E S pick pick_sound). Qed.
 
 (* what the checker means *)
 Theorem C12_checker_nodes_distinct : forall g,
@@ -111,6 +122,7 @@ Example C12_example :
 Proof. vm_compute. reflexivity. Qed.
 
 Print Assumptions C12_enumeration_sound.
+Print Assumptions C12_fuel_never_exhausted.
 Print Assumptions C12_checker_input_complete.
 Print Assumptions C12_init_forall_exists.
 Print Assumptions C12_init_exists_forall.
